@@ -33,7 +33,8 @@ class SqlParseTable(Table):
             start=len(table.tokens),
             reverse=True,
         )
-        real_name = table._get_first_name(dot_idx, real_name=True)
+        # an identifier without a name part after the last dot keeps its text
+        real_name = table._get_first_name(dot_idx, real_name=True) or table.value
         # rewrite identifier's get_parent_name accordingly
         parent_name = (
             "".join(
@@ -76,12 +77,11 @@ class SqlParseColumn(Column):
                     source_columns=source_columns,
                 )
             else:
-                # select column name directly without alias
+                # select column name directly without alias (`t.` has no name part: keep its text)
+                real_name = column.get_real_name() or column.value
                 return Column(
-                    column.get_real_name(),
-                    source_columns=(
-                        (column.get_real_name(), column.get_parent_name()),
-                    ),
+                    real_name,
+                    source_columns=((real_name, column.get_parent_name()),),
                 )
         else:
             # Wildcard, Case, Function without alias (thus not recognized as an Identifier)
